@@ -752,6 +752,8 @@ def run(ck, fb, tier):
         rule_e9(ck, prog)
         K.narrowing_rule(ck, prog, "C05-N", lambda f_: f_.relfile.endswith("parser.c") and f_.name.startswith(("SCPI_Param", "ParamSign", "SCPI_Parameter")))
         rule_e10_e11(ck, prog, S)
+        from . import c13
+        c13.rule_t7(K.RuleProxy(ck, {"C13-T7": "C05-E5"}), prog)
         rule_e7(ck, prog, S)
         rule_e8(ck, prog, S, spec, ts)
     ck.trust("spec/param_errors.json (error codes per cause, conversions that cannot fail, licensed silent case)")
